@@ -91,9 +91,9 @@ int rmdir(const char* path) {
 }
 
 typedef std::vector<unsigned char> Bytes;
-static FILE* out = stdout;
+static thread_local FILE* out = stdout;   // per thread: the threaded mode (C18) collects each call's lines in a memory stream
 static std::map<long, std::vector<CK_ULONG> > results;   // op number -> handles it returned
-static long opNo = 0;
+static thread_local long opNo = 0;
 static std::map<long, Bytes> outs;    // op number -> bytes an encrypt / sign call returned (for `decrelay` / `verrelay`)
 static std::map<long, Bytes> blobs;   // op number -> bytes a wrap call returned (for `unwrap ... blob:@k[,mutation]`)
 static CK_ULONG maxHandleSeen = 0;
@@ -273,6 +273,67 @@ static std::string labelOf(CK_SESSION_HANDLE hs, CK_OBJECT_HANDLE ho, CK_RV* prv
 	return hex(buf, a.ulValueLen);
 }
 
+// ---- C18: threads under a deterministic scheduler ------------------------------------------------------------------------------------
+// Real pthreads, but exactly one runs at any time (a baton).  The baton changes hands only at the mutex callbacks the library calls
+// (CreateMutex/DestroyMutex/LockMutex/UnlockMutex supplied through CK_C_INITIALIZE_ARGS) and between calls, as the seeded schedule says:
+// at a callback inside a call the running thread may be PRE-EMPTED (bounded budget) and stays suspended until the others have completed a
+// few calls; a thread that asks for a held mutex blocks until the holder releases it; no runnable thread = DEADLOCK.
+#include <pthread.h>
+struct SMutex { int owner; };
+struct SThread { pthread_t th; int id; std::vector<std::pair<long, std::string> > script; bool finished; SMutex* blockedOn; long resumeAt; long yields; };
+static std::vector<SThread> gThr; static int gCur = -1; static pthread_mutex_t gBig = PTHREAD_MUTEX_INITIALIZER; static pthread_cond_t gCv = PTHREAD_COND_INITIALIZER;
+static bool gSched = false; static unsigned gRng = 1; static int gBudget = 0; static int gPreemptPct = 0; static long gCallsDone = 0;
+static thread_local int tMe = -1;
+static thread_local std::string tNotes;   // labels of the handles the last C_FindObjects of this thread returned
+struct SForce { int t; long n; long w; };
+static std::vector<SForce> gForce;   // explicit pre-emptions: thread t at its n-th callback, resumed after the others completed w calls
+static bool gThreaded = false;       // p11drv -t
+static bool gFifo = false;           // at call boundaries the lowest-numbered runnable thread goes on (systematic one-pre-emption enumeration)
+static unsigned srnd() { gRng = gRng * 1103515245u + 12345u; return (gRng >> 16) & 0x7fff; }
+static void switchTo(int other) {
+	pthread_mutex_lock(&gBig); gCur = other; pthread_cond_broadcast(&gCv);
+	while (gCur != tMe) pthread_cond_wait(&gCv, &gBig);
+	pthread_mutex_unlock(&gBig);
+}
+static bool canRun(const SThread& t) { return !t.finished && (t.blockedOn == NULL || t.blockedOn->owner == -1); }
+static void deadlock(const char* where) {
+	printf("DEADLOCK %s thread=%d\n", where, tMe); for (auto& t : gThr) printf("  thread %d finished=%d blocked=%d\n", t.id, t.finished, t.blockedOn != NULL); fflush(stdout); _exit(73);
+}
+// who runs next at a call boundary (or when the running thread cannot go on): suspended threads whose time has come first, then the others at random
+static int pickNext(bool includeMe) {
+	std::vector<int> due, normal, early;
+	for (auto& t : gThr) { if (!canRun(t) || (!includeMe && t.id == tMe)) continue;
+		if (t.resumeAt >= 0 && gCallsDone >= t.resumeAt) due.push_back(t.id); else if (t.resumeAt < 0) normal.push_back(t.id); else early.push_back(t.id); }
+	std::vector<int>& v = !due.empty() ? due : !normal.empty() ? normal : early;
+	if (v.empty()) return -1;
+	if (gFifo) return *std::min_element(v.begin(), v.end());
+	return v[srnd() % v.size()];
+}
+static void yieldPoint() {
+	if (!gSched || tMe < 0) return;
+	SThread& me = gThr[tMe]; me.yields++;
+	bool forced = false; long fw = 1; for (auto& f : gForce) if (f.t == tMe && f.n == me.yields) { forced = true; fw = f.w; }
+	if (forced || (gBudget > 0 && (int)(srnd() % 100) < gPreemptPct)) {
+		int o = pickNext(false);
+		if (o >= 0) { if (!forced) gBudget--; me.resumeAt = forced ? gCallsDone + fw : gCallsDone + 1 + srnd() % 3; printf("preempt %d %ld\n", tMe, me.yields); switchTo(o); me.resumeAt = -1; }
+	}
+}
+static CK_RV schedCreateMutex(CK_VOID_PTR_PTR pp) { SMutex* m = new SMutex; m->owner = -1; *pp = m; return CKR_OK; }
+static CK_RV schedDestroyMutex(CK_VOID_PTR p) { delete (SMutex*)p; return CKR_OK; }
+static CK_RV schedLockMutex(CK_VOID_PTR p) {
+	SMutex* m = (SMutex*)p;
+	if (!gSched || tMe < 0) { m->owner = -2; return CKR_OK; }
+	yieldPoint();
+	while (m->owner != -1) {
+		gThr[tMe].blockedOn = m;
+		int o = pickNext(false);
+		if (o < 0) deadlock("LockMutex");
+		switchTo(o);
+	}
+	gThr[tMe].blockedOn = NULL; m->owner = tMe; return CKR_OK;
+}
+static CK_RV schedUnlockMutex(CK_VOID_PTR p) { SMutex* m = (SMutex*)p; m->owner = -1; yieldPoint(); return CKR_OK; }
+
 // ---- the operations --------------------------------------------------------------------------------
 static void run(const std::vector<std::string>& t) {
 	const std::string& op = t[0];
@@ -329,7 +390,7 @@ static void run(const std::vector<std::string>& t) {
 	}
 	else if (op == "fsmut") {
 		// fsmut <kind> <relpath> [args]: damage one file of the token directory (between calls; models what a crash or a foreign writer leaves)
-		//   truncate <n> | flip <offset> <xormask hex> | write <hex> | append <hex> | remove | chmod <octal>
+		//   truncate <n> | flip <offset> <xormask hex> | poke <offset> <hex> (overwrite in place) | write <hex> | append <hex> | remove | chmod <octal>
 		const char* td = getenv("VERIF_TOKENDIR");
 		if (!td || t.size() < 3) { fprintf(out, "= BADOP\n"); return; }
 		// path: literal, or symbolic `T<i>[/O<j>|/<name>]`: i-th token directory / j-th object file, in sorted order (directory names are random)
@@ -358,11 +419,29 @@ static void run(const std::vector<std::string>& t) {
 		else if (k == "remove") rc = ::remove(path.c_str());
 		else if (k == "chmod") rc = ::chmod(path.c_str(), (mode_t)strtoul(t[3].c_str(), NULL, 8));
 		else if (k == "flip") { FILE* f = fopen(path.c_str(), "r+b"); if (!f) rc = -1; else { fseek(f, (long)N(3), SEEK_SET); int c = fgetc(f); if (c == EOF) rc = -1; else { fseek(f, (long)N(3), SEEK_SET); fputc(c ^ (int)strtoul(t[4].c_str(), NULL, 16), f); } fclose(f); } }
+		else if (k == "poke") { Bytes b; unhex(t[4], b); FILE* f = fopen(path.c_str(), "r+b"); if (!f) rc = -1; else { fseek(f, 0, SEEK_END); long sz = ftell(f); long off = (long)N(3); if (off > sz) rc = -1; else { fseek(f, off, SEEK_SET); if (!b.empty()) fwrite(b.data(), 1, b.size(), f); } fclose(f); } }
 		else if (k == "write" || k == "append") { Bytes b; if (t[3] != ".") unhex(t[3], b); FILE* f = fopen(path.c_str(), k == "write" ? "wb" : "ab"); if (!f) rc = -1; else { if (!b.empty()) fwrite(b.data(), 1, b.size(), f); fclose(f); } }
 		else { fprintf(out, "= BADOP\n"); return; }
 		fprintf(out, "= %d\n", rc == 0 ? 0 : 1);
 	}
+	else if (op == "conf") {
+		// conf <hex>: replace the configuration file ($SOFTHSM2_CONF) by these bytes; the text @TOKENDIR@ in them stands for the token directory (C17: any configuration content)
+		const char* cf = getenv("SOFTHSM2_CONF"); const char* td = getenv("VERIF_TOKENDIR");
+		if (!cf || !td || t.size() < 2) { fprintf(out, "= BADOP\n"); return; }
+		Bytes b; if (t[1] != ".") unhex(t[1], b);
+		std::string c(b.begin(), b.end()); const std::string ph = "@TOKENDIR@";
+		for (size_t pos = 0; (pos = c.find(ph, pos)) != std::string::npos; pos += strlen(td)) c.replace(pos, ph.size(), td);
+		FILE* f = fopen(cf, "wb"); int rc = f ? 0 : 1; if (f) { if (!c.empty()) fwrite(c.data(), 1, c.size(), f); fclose(f); }
+		fprintf(out, "= %d\n", rc);
+	}
 	else if (op == "init") { fprintf(out, "= %lu\n", C_Initialize(NULL_PTR)); maxHandleSeen = 0; }
+	else if (op == "initmx" || op == "initos") {
+		// C18: locking enabled, with the application's mutex callbacks (the scheduler's yield points) or with OS locking
+		CK_C_INITIALIZE_ARGS a; memset(&a, 0, sizeof a);
+		if (op == "initmx") { a.CreateMutex = schedCreateMutex; a.DestroyMutex = schedDestroyMutex; a.LockMutex = schedLockMutex; a.UnlockMutex = schedUnlockMutex; }
+		else a.flags = CKF_OS_LOCKING_OK;
+		fprintf(out, "= %lu\n", C_Initialize(&a)); maxHandleSeen = 0;
+	}
 	else if (op == "fini") { fprintf(out, "= %lu\n", C_Finalize(NULL_PTR)); }
 	else if (op == "slots") {
 		CK_RV rv; std::vector<SlotRow> rows = listSlots(false, &rv);
@@ -481,8 +560,9 @@ static void run(const std::vector<std::string>& t) {
 		CK_ULONG before = maxHandleSeen;
 		CK_RV rv = C_FindObjectsInit(h, tp.a.empty() ? NULL_PTR : tp.a.data(), tp.a.size());
 		fprintf(out, "= %lu %lu", rv, h);
-		if (rv == CKR_OK) {
-			// handles minted by this call: probe the values after the largest one seen so far
+		if (rv == CKR_OK && !gSched) {
+			// handles minted by this call: probe the values after the largest one seen so far (not with threads: other threads mint handles meanwhile;
+			// there the labels of the handles FOUND are logged by `find` and the coordinator works out which of them are new)
 			for (CK_ULONG v = before + 1; v < before + 4096; v++) {
 				CK_RV r2; std::string l = labelOf(h, v, &r2);
 				if (r2 == CKR_OBJECT_HANDLE_INVALID || r2 == CKR_SESSION_HANDLE_INVALID) break;
@@ -498,6 +578,7 @@ static void run(const std::vector<std::string>& t) {
 		if (rv == CKR_OK) for (CK_ULONG i = 0; i < cnt && i < max + 8; i++) { fprintf(out, " %lu", buf[i]); res.push_back(buf[i]); note(buf[i]); }
 		for (CK_ULONG i = max; i < max + 8; i++) if (buf[i] != 0xDEADBEEF) fprintf(out, " !OVERRUN");
 		fprintf(out, "\n");
+		if (gThreaded && rv == CKR_OK) { tNotes.clear(); for (CK_ULONG i = 0; i < cnt && i < max; i++) { CK_RV r2; std::string l = labelOf(h, buf[i], &r2); char b[64]; snprintf(b, sizeof b, " %lu:", buf[i]); tNotes += b + l; } }
 	}
 	else if (op == "findfinal") { CK_ULONG h = H(1); fprintf(out, "= %lu %lu\n", C_FindObjectsFinal(h), h); }
 	else if (op == "mechlist") {
@@ -637,6 +718,7 @@ static void onSignal(int sig) {
 }
 
 static std::vector<std::string> gLines; size_t gPos = 0;
+static bool gIsolate = false;
 static void runLine(const std::string& line) {
 	std::vector<std::string> t; { std::stringstream ss(line); std::string w; while (ss >> w) t.push_back(w); }
 	if (t.empty()) return;
@@ -648,10 +730,69 @@ static bool isOp(const std::string& line) { return !(line.empty() || line[0] == 
 
 int main(int argc, char** argv) {
 	std::istream* in = &std::cin; static std::ifstream f;
-	if (argc > 1 && strcmp(argv[1], "-") != 0) { f.open(argv[1]); if (!f) { fprintf(stderr, "cannot open %s\n", argv[1]); return 2; } in = &f; gOpsFile = argv[1]; }
+	if (argc > 1 && strcmp(argv[1], "-") != 0 && strcmp(argv[1], "-i") != 0 && strcmp(argv[1], "-t") != 0) { f.open(argv[1]); if (!f) { fprintf(stderr, "cannot open %s\n", argv[1]); return 2; } in = &f; gOpsFile = argv[1]; }
 	{ char buf[4096]; ssize_t n = readlink("/proc/self/exe", buf, sizeof buf - 1); if (n > 0) { buf[n] = 0; gSelf = buf; } }
-	signal(SIGSEGV, onSignal); signal(SIGBUS, onSignal); signal(SIGFPE, onSignal); signal(SIGABRT, onSignal); signal(SIGILL, onSignal);
+	// under a sanitizer its own handlers stay in place for SEGV/BUS/FPE, so that the report carries the stack; the process then ends non-zero after an op line without result
+	if (!getenv("VERIF_SANITIZER_SIGNALS")) { signal(SIGSEGV, onSignal); signal(SIGBUS, onSignal); signal(SIGFPE, onSignal); }
+	signal(SIGABRT, onSignal); signal(SIGILL, onSignal);
 	setvbuf(out, NULL, _IOLBF, 0);
+	gIsolate = getenv("VERIF_ISOLATE") != NULL;
+	if (argc > 2 && strcmp(argv[1], "-t") == 0) {
+		// threaded mode: p11drv -t <opsfile> [seed [budget [preemptPct [force t:n,t:n…]]]]; lines `M <op>` (main thread: before the first / after the last
+		// T line) and `T<i> <op>`; @k references count ALL op lines of the file.  Event log: `call <thread> <line> <op>` / `ret <thread> <line> <result>`.
+		std::ifstream tf(argv[2]); if (!tf) { fprintf(stderr, "cannot open %s\n", argv[2]); return 2; }
+		gRng = argc > 3 ? (unsigned)strtoul(argv[3], NULL, 0) * 2654435761u + 1u : 1u; gBudget = argc > 4 ? atoi(argv[4]) : 2; gPreemptPct = argc > 5 ? atoi(argv[5]) : 5;
+		if (gPreemptPct < 0) { gFifo = true; gPreemptPct = 0; }
+		if (argc > 6) for (auto& e : splitArgs(argv[6])) { SForce f; f.t = 0; f.n = 0; f.w = 1; if (sscanf(e.c_str(), "%d:%ld:%ld", &f.t, &f.n, &f.w) >= 2) gForce.push_back(f); }
+		std::vector<std::pair<long, std::string> > pro, epi; std::string line; long n = 0; bool seenT = false;
+		while (std::getline(tf, line)) {
+			if (!isOp(line)) continue; n++;
+			size_t sp = line.find(' '); std::string tag = line.substr(0, sp), rest = sp == std::string::npos ? "" : line.substr(sp + 1);
+			if (tag == "M") (seenT ? epi : pro).push_back(std::make_pair(n, rest));
+			else if (tag[0] == 'T') { seenT = true; size_t i = strtoul(tag.c_str() + 1, NULL, 10); while (gThr.size() <= i) { SThread t; t.id = (int)gThr.size(); t.finished = false; t.blockedOn = NULL; t.resumeAt = -1; t.yields = 0; gThr.push_back(t); } gThr[i].script.push_back(std::make_pair(n, rest)); }
+		}
+		auto runMain = [&](std::vector<std::pair<long, std::string> >& v) {
+			for (auto& e : v) { opNo = e.first; std::vector<std::string> t; { std::stringstream ss(e.second); std::string w; while (ss >> w) t.push_back(w); }
+				char* mb = NULL; size_t ml = 0; FILE* ms = open_memstream(&mb, &ml); out = ms; run(t); fflush(ms); fclose(ms); out = stdout;
+				std::string r(mb ? mb : ""); free(mb); while (!r.empty() && r.back() == '\n') r.pop_back();
+				printf("call -1 %ld %s\n", e.first, e.second.c_str()); if (!tNotes.empty()) { printf("labels%s\n", tNotes.c_str()); tNotes.clear(); }
+				printf("ret -1 %ld %s\n", e.first, r.c_str()); fflush(stdout); } };
+		gThreaded = true;
+		runMain(pro);
+		gSched = true;
+		auto body = [](void* arg) -> void* {
+			SThread* me = (SThread*)arg; tMe = me->id;
+			pthread_mutex_lock(&gBig); while (gCur != tMe) pthread_cond_wait(&gCv, &gBig); pthread_mutex_unlock(&gBig);
+			for (auto& e : me->script) {
+				int nx = pickNext(true); if (nx >= 0 && nx != tMe) switchTo(nx);
+				opNo = e.first; std::vector<std::string> t; { std::stringstream ss(e.second); std::string w; while (ss >> w) t.push_back(w); }
+				printf("call %d %ld %s\n", tMe, e.first, e.second.c_str()); fflush(stdout);
+				char* mb = NULL; size_t ml = 0; FILE* ms = open_memstream(&mb, &ml); out = ms; run(t); fflush(ms); fclose(ms); out = stdout;
+				std::string r(mb ? mb : ""); free(mb); while (!r.empty() && r.back() == '\n') r.pop_back();
+				for (auto& ch : r) if (ch == '\n') ch = '|';
+				if (!tNotes.empty()) { printf("labels%s\n", tNotes.c_str()); tNotes.clear(); }
+				printf("ret %d %ld %s\n", tMe, e.first, r.c_str()); fflush(stdout); gCallsDone++;
+			}
+			me->finished = true;
+			int nx = pickNext(false);
+			if (nx < 0) { bool all = true; for (auto& t : gThr) if (!t.finished) all = false; if (!all) deadlock("thread end"); nx = -2; }
+			pthread_mutex_lock(&gBig); gCur = nx; pthread_cond_broadcast(&gCv); pthread_mutex_unlock(&gBig);
+			return NULL;
+		};
+		for (auto& t : gThr) pthread_create(&t.th, NULL, body, &t);
+		if (!gThr.empty()) { pthread_mutex_lock(&gBig); gCur = gFifo ? 0 : (int)(srnd() % gThr.size()); pthread_cond_broadcast(&gCv); while (gCur != -2) pthread_cond_wait(&gCv, &gBig); pthread_mutex_unlock(&gBig); }
+		for (auto& t : gThr) pthread_join(t.th, NULL);
+		gSched = false; tMe = -1;
+		for (auto& t : gThr) printf("yields %d %ld\n", t.id, t.yields);
+		runMain(epi);
+		return 0;
+	}
+	if (argc > 1 && strcmp(argv[1], "-i") == 0) {
+		// interactive: one op per line from stdin, answered before the next line is read (C15 / C18: a coordinator interleaves several such processes)
+		std::string line;
+		while (std::getline(std::cin, line)) { if (!isOp(line)) continue; opNo++; runLine(line); }
+		return 0;
+	}
 	{ std::string line; while (std::getline(*in, line)) gLines.push_back(line); }
 	if (argc > 3 && strcmp(argv[2], "--resume") == 0) {
 		std::ifstream sf(argv[3]); long long pos = 0; size_t n = 0; sf >> pos >> opNo >> n;
@@ -697,6 +838,16 @@ int main(int argc, char** argv) {
 			continue;
 		}
 		fprintf(out, "%s\n", line.c_str()); fflush(out);
+		if (gIsolate && t[0] != "init" && t[0] != "fini" && t[0] != "reexec") {
+			// C17 isolation: the op is first tried in a forked copy of this process (output discarded).  When the copy dies, the op is answered
+			// "= CRASHED <status>" and NOT run here, so that one history can expose every crashing call it contains instead of only the first.
+			fflush(stderr);
+			pid_t pid = fork();
+			if (pid == 0) { FILE* dn = fopen("/dev/null", "w"); if (dn) out = dn; run(t); fflush(out); _exit(0); }
+			int st = 0; waitpid(pid, &st, 0);
+			int code = WIFEXITED(st) ? WEXITSTATUS(st) : 1000 + WTERMSIG(st);
+			if (code != 0) { fprintf(out, "= CRASHED %d\n", code); fflush(out); fprintf(stderr, "\n@@CRASHED op=%ld code=%d\n", opNo, code); fflush(stderr); continue; }
+		}
 		run(t);
 		fflush(out);
 	}
